@@ -128,7 +128,7 @@ func c18TriggerBody(roles []string) func(x *sched.X) {
 }
 
 func raceKey(r vsched.Race) string {
-	loc := strings.TrimSuffix(r.Loc, "(struct copy)")
+	loc := strings.TrimSuffix(strings.TrimSuffix(r.Loc, "(struct copy)"), "(handed to uninstrumented code)")
 	s := []string{r.A, r.B}
 	sort.Strings(s)
 	return fmt.Sprintf("C18.race/%s/%s|%s", loc, s[0], s[1])
@@ -186,6 +186,7 @@ func c18Scenarios() map[string]*sched.Scenario {
 	addFull("F2/gossip-trx+contract-vertex+own-contract", []string{"gvrx0", "gvrx1"}, "gtrx", "gvrx2", "ncontract")
 	addFull("F3/gossip-trx+confirm+reads", []string{"gvrx0", "gvrx1"}, "gtrx", "nconfirm", "nbalance", "nhistory")
 	addFull("F4/orphan-fetch+getvertex+propose", nil, "gvrx2", "ngetvertex", "npropose")
+	addFull("F5/two-proposals-back-to-back+two-contracts-back-to-back", []string{"gvrx0", "gvrx1"}, "npropose2", "ncontract2")
 	return m
 }
 
